@@ -40,11 +40,16 @@ func (h *RefreshFunc) Final(ctx *sqlite.AggregateContext) {
 		ctx.ResultError(fmt.Errorf("table not found: %s", fCtx.tableName))
 		return
 	}
+	if vt.Tree.Root.IsDirty() {
+		ctx.ResultError(fmt.Errorf("table has uncommitted changes: %s", fCtx.tableName))
+		return
+	}
 	nt, err := s3db.OpenKV(h.sc.ctx, vt.S3Options, "s3db-rows")
 	if err != nil {
 		ctx.ResultError(fmt.Errorf("open: %w", err))
 		return
 	}
+	vt.Tree.Root.Cancel()
 	vt.Tree = nt
 }
 
